@@ -172,7 +172,7 @@ def ownload_oracle(line, res):
                    ("badans", "responses whose answer is not the keyed function of their own question (or not the question asked)"),
                    ("upoison", "upstream-visible queries containing poison"),
                    ("uforeign", "upstream-visible queries that are no question of the vocabulary"),
-                   ("tbad", "direct transport exchanges that returned another exchange's reply")):
+                   ("tbad", "direct transport exchanges that returned another exchange's reply or an already released message")):
         if r.get(k, "0") != "0":
             why.append("%s %s" % (r[k], txt))
     if r.get("ev", "-") != "-":
@@ -230,10 +230,21 @@ PROPS["C20"] = dict(
          "request target it receives) "
          "with the pool's poison/quarantine hook on (and, for the D14 orderings, also with the hook off and one P, a second "
          "request recycling the array); compared with the verdict of the ownership LTS for the same schedule; "
+         "round 4 (buffer hook AND the object hook of internal/dnsmsg on; the harness is the owner of every message it is "
+         "given: never reported released while held, released exactly once): rdfault = a reply frame that ends inside the "
+         "frame (EOF / reset after the prefix and fewer octets than announced, half a prefix, before the prefix) on the "
+         "reuse / pipeline / QUIC transports; listen = the same from clients of the tcp / tls / quic / gnet listeners of the "
+         "in-process router; fallback = udp upstream with a truncated reply and a failing TCP leg (closed, refused, short "
+         "frame, garbage); handover = the caller's context ends right after it received the reply while the worker is "
+         "parked in its epilogue (contention on the transport mutex); emptyresp = not-implemented queries (RD clear, opcode, "
+         "QR set, QDCOUNT 0/2) through every listener followed by ordinary queries; "
          "ownload: concurrent end-to-end load through the in-process router (udp/tcp/gnet/http/fasthttp listeners, "
-         "udp-pipeline + tcp-reuse + tcp-pipeline transports, small cache, hanging-up clients) followed by direct "
+         "udp-pipeline(+tcp fallback) + tcp-reuse + tcp-pipeline transports, small cache, hanging-up clients, clients whose "
+         "frame ends early, not-implemented queries, upstreams that truncate over UDP and end TCP frames early) followed by direct "
          "transport exchanges with tiny and already-expired deadlines, hook on; oracle = no poison in any client-visible "
-         "response or upstream-visible query, keyed answers, zero hook events; decode: decoded dump taken after the input "
+         "response or upstream-visible query, keyed answers, zero hook events (buffers: double / foreign release, write after "
+         "release; objects: double release, write after release, one object handed out twice), no exchange returning a "
+         "released message; decode: decoded dump taken after the input "
          "buffer was overwritten and released, compared with the model's decode. distinct = distinct case line; "
          "non-trivial = the scenario ran to a verdict (ownership), > 500 checked responses and > 500 checked direct "
          "exchanges (ownload), accepted message (decode). thorough: the same under -race (build/implrun-race); any DATA "
@@ -242,13 +253,14 @@ PROPS["C20"] = dict(
                  "QUIC stream keeps quic-go's contract that nothing reads Write's argument after CancelWrite returned",
                  "Go's mutexes, channels and sync.Pool are atomic and sequentially consistent for properly synchronised "
                  "programs (Go memory model)"],
-    trusted=["C20: the poison hook and the race detector only SEARCH for a failing schedule of the real code; the theorems "
+    trusted=["C20: the poison hook, the object ownership hook and the race detector only SEARCH for a failing schedule of the real code; the theorems "
              "cover the ownership protocols as modelled in coq/Own/Ownership.v (hand-written from the Go code, one "
              "instruction per atomic action)"],
     level_note="Partial: data-race freedom of arbitrary Go code is a runtime property. Proved (axiom-free, all interleavings "
                "of any length, adversarial recycling environment): no use after release, single owner, no double/foreign "
                "release, no foreign cache data for the modelled protocols (UDP/TCP/HTTP/gnet handlers, pipeline, reuse after "
-               "the D14 fix, QUIC, cache entry recycling); gnet fallback linked to C09_pack_total; D14 refuted on the pinned "
-               "protocol. Tied to the code by deterministic replays of the modelled orderings and by sampling real schedules "
+               "the D14 fix, QUIC, cache entry recycling; stream reader with failing reads, UDP->TCP fallback with failing "
+               "legs, reply hand-over vs cancellation, header-only replies with their pooled Question objects); gnet fallback "
+               "linked to C09_pack_total; D14 and the four round-4 variants refuted by explicit schedules. Tied to the code by deterministic replays of the modelled orderings and by sampling real schedules "
                "(poison/quarantine hook; race detector in the thorough tier).",
 )
